@@ -17,7 +17,7 @@ LEVEL = "exploration"
 FLAVOUR = "plain"
 TIERS = {"quick": (40000, 150), "thorough": (1500000, 3000)}
 RULE_TEXT = ("one run = 1-4 producer tasks x up to 8 uniquely named events each, one stepper (step(0) / step(ms) / step(forever)), "
-             "a generated chain chart (k raises per external event, eventless follow-ups) under one seeded schedule; non-trivial = "
+             "a generated chain chart (k raises per external event, eventless follow-ups, in 35% a targetless first stage that only raises, in 60% a watching region with guarded eventless transitions) under one seeded schedule; non-trivial = "
              "the receive() of one task overlapped (by global sequence number) a receive() or a dequeue of another task; "
              "distinct = distinct scheduler decision-sequence hashes among non-trivial runs")
 ASSUMPTIONS = [
@@ -42,7 +42,14 @@ def gen_plan(seed, k):
     neps = rp.randint(0, 2)
     chain = ["e%d" % i for i in range(neps)] + ["y%d" % i for i in range(nraise)]
     first = chain[0] if chain else "w"
-    t = w.add(El("transition", {"event": "p", "target": first}))
+    if rp.random() < 0.35:
+        # the external event is taken by a targetless transition that only raises: the macrostep goes on although the
+        # configuration did not change
+        t0 = w.add(El("transition", {"event": "p"}))
+        t0.add(El("raise", {"event": "k"}))
+        t = w.add(El("transition", {"event": "k", "target": first}))
+    else:
+        t = w.add(El("transition", {"event": "p", "target": first}))
     for i in range(nraise):
         t.add(El("raise", {"event": "i%d" % i}))
     if rp.random() < 0.3:
